@@ -92,7 +92,7 @@ func init() {
 			}
 			live := e.reachable(st, regs)
 			for id := range st.heap {
-				if id < 1000000 && !live[id] {
+				if id < globalBase && !live[id] {
 					delete(st.heap, id)
 				}
 			}
@@ -103,6 +103,11 @@ func init() {
 				}
 			}
 			st.allocLog = n
+			// canonical allocation names exist so that different paths agree on object identities; the shape loop
+			// is a single path, and ids are never reused (monotonic counter), so the table can be dropped
+			if len(e.allocNames) > 200000 {
+				e.allocNames = map[string]int{}
+			}
 			return nil
 		}
 		f2 := func(f func(x, y float64) float64) intrinsic {
